@@ -5,6 +5,30 @@ use adblock::url_parser::parse_url;
 use serde_json::json;
 use std::collections::{HashMap, HashSet};
 
+/// What each request-type string denotes (the WebExtensions / Chromium vocabularies), stated here independently of the crate's
+/// table; everything else — other spellings, other letter case — is `Other`. Run by every check whose answers depend on the type.
+pub fn type_table_oracle(out: &mut Out) {
+    use adblock::request::RequestType as T;
+    let table: &[(&str, T)] = &[("document", T::Document), ("main_frame", T::Document), ("sub_frame", T::Subdocument), ("subdocument", T::Subdocument),
+        ("script", T::Script), ("stylesheet", T::Stylesheet), ("image", T::Image), ("imageset", T::Image), ("font", T::Font), ("media", T::Media),
+        ("object", T::Object), ("object_subrequest", T::Object), ("xhr", T::Xmlhttprequest), ("xmlhttprequest", T::Xmlhttprequest), ("websocket", T::Websocket),
+        ("ping", T::Ping), ("beacon", T::Ping), ("csp_report", T::Csp), ("other", T::Other), ("speculative", T::Other), ("web_manifest", T::Other), ("xbl", T::Other),
+        ("xml_dtd", T::Other), ("xslt", T::Other), ("", T::Other), ("Script", T::Other), ("XHR", T::Other), ("Sub_Frame", T::Other), ("frame", T::Other), ("subframe", T::Other),
+        ("css", T::Other), ("doc", T::Other), ("fetch", T::Other), ("popup", T::Other), ("image ", T::Other)];
+    for (name, want) in table {
+        if let Ok(q) = Request::new("https://a.com/x", "https://b.org/", name) {
+            if q.request_type != *want {
+                out.fail("request-type-of-a-type-string", None, json!({"type_string": name, "request_type": format!("{:?}", q.request_type), "expected": format!("{:?}", want)}));
+            }
+        }
+        let pq = Request::preparsed("https://a.com/x", "a.com", "b.org", name, true);
+        if pq.request_type != *want {
+            out.fail("request-type-of-a-type-string", None, json!({"api": "preparsed", "type_string": name, "request_type": format!("{:?}", pq.request_type), "expected": format!("{:?}", want)}));
+        }
+        out.bump("type_strings_checked");
+    }
+}
+
 /// The URL scanner on one ASCII URL against its model (`url` op): scheme, host and the normalised text. For the checks of
 /// other properties whose requests must be read the way the model reads them.
 pub fn emit_url_case(out: &mut Out, url: &str) {
@@ -214,6 +238,7 @@ pub fn is_tame_host(h: &str) -> bool {
 }
 
 pub fn run(seed: u64, n: usize, out: &mut Out) {
+    type_table_oracle(out);
     let mut r = Rng::new(seed ^ 0x12);
     let psl = Psl::load();
     if psl.is_none() {
